@@ -71,7 +71,8 @@ def run(ctx):
         "adapters; Module::get_function as key lookup + signature equality; declaration name spaces; pipeline stages as World operations "
         "— tied by the correspondence run only",
         "unicode-ident: '#' and '.' are not XID_Continue, XID_Start is a subset of XID_Continue (hypothesis XIDFacts of discovery_exact / no_shadow_*)",
-        "counters of run_tests are i32 (Rust integer fallback): aggregate_iff assumes fewer than 2^31 tests",
+        "counters of run_tests are i32 (Rust integer fallback; an explicitly typed counter is refused by the translator): aggregate_* assume fewer than 2^31 tests",
+        "std::process::ExitCode is modelled as the status number the parent observes (SUCCESS = 0, FAILURE = 1, from(u8)); `failed` = status ≠ 0",
         "the JIT-compiled body of a test returns the verdict its source says (C01); modelled as FnInfo.verdict",
     ]
     return ctx.finish(
